@@ -45,6 +45,7 @@ Rec(d) ==
         zero == HasZero(pipe, d)
         n == Cardinality(MS)
         devs == IF zero THEN {} ELSE PipeDevs(pipe, d, MS)
+        DVs == (SUBSET devs) \ {{}}
         StepsOf(dv) == [i \in 1..Len(pipe) |->
                      IF Skipped(pipe[i], d) THEN [skipped |-> TRUE, lo |-> 0, hi |-> 0]
                      ELSE LET k == CHOOSE j \in 1..Len(ex) : ex[j] = i IN
@@ -54,16 +55,13 @@ Rec(d) ==
         underflow |-> \E k \in 1..Len(ex) : Underflows(pipe, d, k),
         lo |-> PipeLo(pipe, d, MS), hi |-> PipeHi(pipe, d, MS),
         \* one entry per step of the text, in text order
-        steps |-> StepsOf(FALSE),
-        \* the same with the deviation switches on (only if one applies)
-        devs |-> devs,
-        dlo |-> IF devs = {} THEN 0 ELSE PipeLoD(pipe, d, MS, TRUE), dhi |-> IF devs = {} THEN 0 ELSE PipeHiD(pipe, d, MS, TRUE),
-        dsteps |-> IF devs = {} THEN <<>> ELSE StepsOf(TRUE),
+        steps |-> StepsOf({}),
+        \* the same with every non-empty subset of the applicable deviation switches on
+        variants |-> {[on |-> DV, lo |-> PipeLoD(pipe, d, MS, DV), hi |-> PipeHiD(pipe, d, MS, DV), steps |-> StepsOf(DV)] : DV \in DVs},
         members |-> {[cls |-> m.cls, pt |-> m.pt, mask |-> m.M,
                       el |-> IF zero THEN AllAny ELSE Final(pipe, d, m).el,
                       sn |-> IF zero THEN FALSE ELSE Final(pipe, d, m).sn,
-                      del |-> IF devs = {} THEN <<>> ELSE FinalD(pipe, d, m, TRUE).el,
-                      dsn |-> IF devs = {} THEN FALSE ELSE FinalD(pipe, d, m, TRUE).sn] : m \in MS}]
+                      dv |-> {[on |-> DV, el |-> FinalD(pipe, d, m, DV).el, sn |-> FinalD(pipe, d, m, DV).sn] : DV \in DVs}] : m \in MS}]
 
 Emit == Len(pipe) = N => \A d \in Dirs : PrintT(<<"PIPE", ToJson(Rec(d))>>)
 =============================================================================
